@@ -9,7 +9,7 @@ for l in open('/tmp/seedverify.txt'):
 caught = {}
 for f in ['/tmp/mut2.txt']:
     for l in open(f):
-        m = re.match(r'_unverified/(C\d\d)/([AB]): (.*)', l)
+        m = re.match(r'_unverified/(C\d\d)/([A-D]): (.*)', l)
         if m: caught[(m.group(1), m.group(2))] = m.group(3)
 head = subprocess.check_output(['git','-C','/repo','log','--format=%h','-1'],text=True).strip()
 for d, v in sorted(ver.items()):
